@@ -462,6 +462,12 @@ func vkWorker(t *testing.T) {
 		t.Fatalf("worker: %v", err)
 	}
 	run := &vkRun{dir: os.Getenv("VERIF_DIR"), cfg: wl.Cfg}
+	if os.Getenv("VERIF_RECOVER_ONLY") != "" {
+		// a recovering process that is killed itself
+		armed = true
+		run.open()
+		os.Exit(0)
+	}
 	if err := run.open(); err != nil {
 		t.Fatalf("worker open: %v", err)
 	}
@@ -486,6 +492,8 @@ type vkCrashJob struct {
 	local  int // occurrence within the interrupted step
 	pre    vkState
 	wlPath string
+	rcs    []map[string]interface{} // further crashes during recovery: [{"p":..,"n":..}]
+	rhits  map[string]int           // crash points the (uncrashed) recovery passed
 	events []vkEvent
 	note   string
 }
@@ -536,6 +544,28 @@ func vkRunCrashJob(j *vkCrashJob, root string) {
 		j.note = fmt.Sprintf("nondeterministic: worker completed %d steps, profile says %d", len(jb), j.opIdx)
 		return
 	}
+	// further crashes during recovery: a process that only reopens the directory
+	// and is killed in front of the given crash point of New
+	for _, rc := range j.rcs {
+		rcmd := exec.Command(os.Args[0], "-test.run=^TestVerifCrash$")
+		rcmd.Env = append(os.Environ(), "VERIF_CRASH_WORKER=1", "VERIF_RECOVER_ONLY=1", "VERIF_WL="+j.wlPath,
+			"VERIF_DIR="+dir, fmt.Sprintf("VERIF_CRASH=%s:%d", vStr(rc, "p"), vInt(rc, "n")), "VERIF_JOURNAL="+journal)
+		rerr := rcmd.Run()
+		rk := false
+		if ee, ok := rerr.(*exec.ExitError); ok {
+			if ws, ok := ee.Sys().(syscall.WaitStatus); ok && ws.Signaled() && ws.Signal() == syscall.SIGKILL {
+				rk = true
+			}
+		}
+		if !rk {
+			if rerr == nil {
+				j.note = "not_reached"
+			} else {
+				j.note = "infra:recovery crasher failed: " + rerr.Error()
+			}
+			return
+		}
+	}
 	j.events = append(j.events, vkEvent{T: j.tid, K: "crash", A: "Open",
 		Args: map[string]interface{}{"wl": j.wl.ID, "p": j.point, "n": j.global}, Cfg: j.wl.Cfg, St: j.pre,
 		Obs: vkObs{A: "Open", Ret: []int64{}}})
@@ -545,7 +575,8 @@ func vkRunCrashJob(j *vkCrashJob, root string) {
 	defer os.Remove(evPath)
 	obsCmd := exec.Command(os.Args[0], "-test.run=^TestVerifCrash$")
 	obsCmd.Env = append(os.Environ(), "VERIF_CRASH_OBSERVER=1", "VERIF_WL="+j.wlPath, "VERIF_DIR="+dir,
-		"VERIF_EVENTS="+evPath, fmt.Sprintf("VERIF_JOB=%d:%d:%d:%s", j.tid, j.opIdx, j.local, j.point))
+		"VERIF_EVENTS="+evPath, fmt.Sprintf("VERIF_JOB=%d:%d:%d:%s", j.tid, j.opIdx, j.local, j.point),
+		"VERIF_RCS="+vkJSON(j.rcs))
 	var oout bytes.Buffer
 	obsCmd.Stdout, obsCmd.Stderr = &oout, &oout
 	if err := obsCmd.Start(); err != nil {
@@ -575,12 +606,20 @@ func vkRunCrashJob(j *vkCrashJob, root string) {
 		if err := json.Unmarshal(line, &e); err != nil {
 			break // torn last line of a killed observer
 		}
+		if e.A == "CrashRecover" {
+			if rh, ok := e.Args["rhits"].(map[string]interface{}); ok {
+				j.rhits = map[string]int{}
+				for k, v := range rh {
+					j.rhits[k] = int(v.(float64))
+				}
+			}
+		}
 		j.events = append(j.events, e)
 		last = &j.events[len(j.events)-1]
 	}
 	if how != "" {
 		// the step the observer was executing did not return
-		seq := [][2]interface{}{{"CrashRecover", map[string]interface{}{"op": j.wl.Steps[j.opIdx], "p": j.point, "n": j.local}}}
+		seq := [][2]interface{}{{"CrashRecover", map[string]interface{}{"op": j.wl.Steps[j.opIdx], "p": j.point, "n": j.local, "rcs": vkRcs(j.rcs)}}}
 		for _, st := range j.wl.Post {
 			seq = append(seq, [2]interface{}{vStr(st, "a"), st})
 		}
@@ -623,8 +662,14 @@ func vkObserver(t *testing.T) {
 		out.Write(append(eb, '\n'))
 	}
 	run := &vkRun{dir: dir, cfg: wl.Cfg}
-	args := map[string]interface{}{"op": wl.Steps[opIdx], "p": point, "n": local}
-	if err := run.open(); err != nil {
+	var rcs []map[string]interface{}
+	json.Unmarshal([]byte(os.Getenv("VERIF_RCS")), &rcs)
+	rhits := map[string]int{}
+	VerifCrashHook = func(name string) { rhits[name]++ }
+	args := map[string]interface{}{"op": wl.Steps[opIdx], "p": point, "n": local, "rcs": vkRcs(rcs), "rhits": rhits}
+	err = run.open()
+	VerifCrashHook = nil
+	if err != nil {
 		// reopening failed: nothing more can be observed
 		st := vkState{Fs: vkProjectDir(dir), Sc: []vkRec{}, Rd: []vkRd{}, Mem: vkMem{Segs: []vkSeg{}, Ep: []vEpoch{}, HW: -1}}
 		ev("CrashRecover", args, st, vkObs{A: "CrashRecover", Ret: []int64{}, Err: "error:" + err.Error()})
@@ -639,6 +684,19 @@ func vkObserver(t *testing.T) {
 		ev(vStr(st, "a"), eff, vkProject(run.l, dir), obs)
 	}
 	os.Exit(0)
+}
+
+func vkJSON(v interface{}) string {
+	b, _ := json.Marshal(v)
+	return string(b)
+}
+
+// vkRcs is the list of recovery crashes as logged (never null)
+func vkRcs(rcs []map[string]interface{}) []map[string]interface{} {
+	if rcs == nil {
+		return []map[string]interface{}{}
+	}
+	return rcs
 }
 
 func vkEnvInt(k string, d int) int {
@@ -723,12 +781,6 @@ func TestVerifCrash(t *testing.T) {
 			for _, name := range names {
 				for n := 1; n <= hits[name]; n++ {
 					g := total[name] + n
-					if vStr(st, "a") == "Reopen" && name != "hw.before_checkpoint" {
-						// passages inside the recovery part of a restart (crash during recovery)
-						// are not modelled
-						stats["skipped_recovery_point"]++
-						continue
-					}
 					if g > maxOcc {
 						stats["skipped_occurrence"]++
 						continue
@@ -784,6 +836,79 @@ func TestVerifCrash(t *testing.T) {
 	}
 	close(ch)
 	wg.Wait()
+
+	// 2b. second wave: for crash runs whose recovery passed crash points, the
+	// recovering process is killed there as well (bounded by VERIF_DOUBLE_MAX)
+	if dmax := vkEnvInt("VERIF_DOUBLE_MAX", 0); dmax > 0 {
+		second := []*vkCrashJob{}
+		seen2 := map[[20]byte]bool{}
+		type cand struct {
+			j    *vkCrashJob
+			name string
+			n    int
+		}
+		cands := []cand{}
+		for _, j := range jobs {
+			if j.note != "" || len(j.events) < 2 || j.rhits == nil {
+				continue
+			}
+			names := make([]string, 0, len(j.rhits))
+			for name := range j.rhits {
+				names = append(names, name)
+			}
+			sort.Strings(names)
+			for _, name := range names {
+				for n := 1; n <= j.rhits[name] && n <= maxOcc; n++ {
+					cands = append(cands, cand{j, name, n})
+				}
+			}
+		}
+		// the budget goes to the rarer recovery point (epoch flush) first, then by occurrence
+		sort.SliceStable(cands, func(a, b int) bool {
+			ra, rb := cands[a].name != "epoch.before_flush", cands[b].name != "epoch.before_flush"
+			if ra != rb {
+				return !ra
+			}
+			return cands[a].n > cands[b].n
+		})
+		for _, c := range cands {
+			// same crashed directory + same recovery crash site = same scenario
+			kb, _ := json.Marshal([]interface{}{c.j.wl.Cfg, c.j.events[1].St.Fs, c.name, c.n})
+			key := sha1.Sum(kb)
+			if seen2[key] || len(second) >= dmax {
+				stats["skipped_double"]++
+				continue
+			}
+			seen2[key] = true
+			tid++
+			second = append(second, &vkCrashJob{tid: tid, wl: c.j.wl, point: c.j.point, global: c.j.global, opIdx: c.j.opIdx,
+				local: c.j.local, pre: c.j.pre, wlPath: c.j.wlPath,
+				rcs: []map[string]interface{}{{"p": c.name, "n": float64(c.n)}}})
+		}
+		ch2 := make(chan *vkCrashJob)
+		var wg2 sync.WaitGroup
+		for w := 0; w < par; w++ {
+			wg2.Add(1)
+			go func() {
+				defer wg2.Done()
+				for j := range ch2 {
+					vkRunCrashJob(j, root)
+				}
+			}()
+		}
+		for _, j := range second {
+			ch2 <- j
+		}
+		close(ch2)
+		wg2.Wait()
+		for _, j := range second {
+			if j.note == "" {
+				stats["double_crash_runs"]++
+				stats["rpoint:"+vStr(j.rcs[0], "p")]++
+			}
+		}
+		jobs = append(jobs, second...)
+	}
 
 	// 3. traces in job order
 	for _, j := range jobs {
